@@ -189,11 +189,13 @@ def check_cases(draw):
     files = []
     for i in range(nfiles):
         lang = draw(st.sampled_from(LANGS))
-        ls = draw(st.lists(_len, min_size=0, max_size=8))
+        ls = draw(st.one_of(st.lists(_len, min_size=0, max_size=8), st.lists(st.sampled_from([29, 30, 31, 32, 60, 61]), min_size=1, max_size=1)))
         if lang == "Python":
             ls = [max(2, v) for v in ls]
         sub = draw(st.sampled_from(["", "", "src/", "lib/core/"]))
         f = {"path": f"{sub}m{i}.{tree.EXT[lang]}", "language": lang, "lengths": ls}
+        if draw(st.integers(0, 2)) == 0:
+            f["no_final_newline"] = True  # the last line of the file is not newline-terminated
         if draw(st.integers(0, 3)) == 0:
             f["encoding"] = "latin-1"  # a leading comment line with a non-ASCII letter, stored as ISO-8859-1 (not valid UTF-8)
         files.append(f)
@@ -205,6 +207,8 @@ def run_check_case(case):
     content = {}
     for f in files:
         text = tree.flat_file(f["language"], f["lengths"])
+        if f.get("no_final_newline"):
+            text = text.rstrip("\n")
         if f.get("encoding") == "latin-1":
             content[f["path"]] = (("# début\n" if f["language"] == "Python" else "// début\n") + text).encode("latin-1")
         else:
